@@ -947,6 +947,78 @@ func (w *sysWorld) step(f []string) (res int, requeued bool) {
 				}
 			}
 		}
+	case "rln":
+		// the watch broke: the informer lists again and replaces its store (DeltaFIFO.Replace): pending events are
+		// dropped, every listed object is delivered as an update (or add), every stored object that is no longer
+		// listed as a deletion carrying the store's last known state
+		if !w.synced {
+			return 0, false
+		}
+		w.nfeed = nil
+		idx := w.nodeInf.inf.indexer
+		listed := map[string]bool{}
+		for _, n := range w.nodes {
+			listed[n.Name] = true
+			obj := n.DeepCopy()
+			old, exists, _ := idx.GetByKey(obj.Name)
+			_ = idx.Add(obj)
+			for _, h := range w.nodeHandlers() {
+				if exists {
+					h.OnUpdate(old, obj)
+				} else {
+					h.OnAdd(obj, false)
+				}
+			}
+		}
+		keys := idx.ListKeys()
+		sort.Strings(keys)
+		dels := 0
+		for _, k := range keys {
+			if listed[k] {
+				continue
+			}
+			last, _, _ := idx.GetByKey(k)
+			_ = idx.Delete(last)
+			dels++
+			for _, h := range w.nodeHandlers() {
+				h.OnDelete(cache.DeletedFinalStateUnknown{Key: k, Obj: last})
+			}
+		}
+		if dels > 0 {
+			return 9, false
+		}
+	case "rlc":
+		if !w.synced {
+			return 0, false
+		}
+		w.cfeed = nil
+		idx := w.ccInf.inf.indexer
+		listed := map[string]bool{}
+		for _, c := range w.ccs {
+			listed[c.Name] = true
+			obj := c.DeepCopy()
+			old, exists, _ := idx.GetByKey(obj.Name)
+			_ = idx.Add(obj)
+			for _, h := range w.ccHandlers() {
+				if exists {
+					h.OnUpdate(old, obj)
+				} else {
+					h.OnAdd(obj, false)
+				}
+			}
+		}
+		keys := idx.ListKeys()
+		sort.Strings(keys)
+		for _, k := range keys {
+			if listed[k] {
+				continue
+			}
+			last, _, _ := idx.GetByKey(k)
+			_ = idx.Delete(last)
+			for _, h := range w.ccHandlers() {
+				h.OnDelete(cache.DeletedFinalStateUnknown{Key: k, Obj: last})
+			}
+		}
 	case "fn":
 		var obj *corev1.Node
 		if o, ok, _ := w.nodeInf.inf.indexer.GetByKey(f[2]); ok {
@@ -1114,7 +1186,7 @@ func runSys(sc *bufio.Scanner, out *bufio.Writer) {
 		// C20 runtime monitor: objects that were in the cache before the step and are still the same
 		// cached instance must be byte-for-byte unchanged unless the step itself replaced them
 		hash := "same"
-		if f[0] != "dn" && f[0] != "dnt" && f[0] != "dc" && f[0] != "start" && f[0] != "crash" && f[0] != "construct" && res != 3 {
+		if f[0] != "dn" && f[0] != "dnt" && f[0] != "dc" && f[0] != "rln" && f[0] != "rlc" && f[0] != "start" && f[0] != "crash" && f[0] != "construct" && res != 3 {
 			after := w.cacheHashes()
 			for k, v := range before {
 				if v2, ok := after[k]; ok && v2 != v {
